@@ -512,7 +512,7 @@ fn string_edges(kind: &str) -> Vec<Value> {
     }
     if kind == "Nonce" {
         // quoted-pair: a backslash may escape any ASCII character, control characters included
-        for s in ["a\\\u{1}b", "\\\u{7f}", "x\\\u{0}", "\\\u{1f}\\\u{8}", "q\\\"q", "b\\\\b"] {
+        for s in ["a\\\u{1}b", "\\\u{7f}", "x\\\u{0}", "\\\u{1f}\\\u{8}", "q\\\"q", "b\\\\b", "x\\\u{c}", "\\\u{b}", "y\\\u{1c}"] {
             out.push(s.to_string());
         }
     }
